@@ -22,6 +22,7 @@ var c09SkipAllowed = map[string]string{
 	"pkg/database.(*db).VerifiableTxByID -> pkg/database.(*db).serializeTx":  "value resolution of entries only: the tx was read with integrity checks and the client verifies each value against hVal",
 	"pkg/database.(*db).ZAdd -> pkg/database.(*db).getAtTx":                  "existence pre-check of a referenced key",
 	"pkg/database.(*db).ZScan -> pkg/database.(*db).getAtTx":                 "plain (non-verifiable) read",
+	"embedded/tools/stress_tool.main -> embedded/store.(*ImmuStore).ReadTx":  "developer load generator (package main, seen by the whole-program load only): compares what it reads with the values it has just written; no user-facing read path goes through it",
 }
 
 // store readers whose result is the proven material of a verifiable response
@@ -168,6 +169,14 @@ func c09(c *Ctx) {
 			c.check(desc(callOf(in).Args[4]) == "const:false", r, fnName(f)+":checked", c.pos(in.Pos()), "values resolved through the index are digest-checked", "valueRef.Resolve skips the value digest check")
 		}
 	}
+
+	// ---- C09.4 never crashes while reading a (possibly altered) tx record: bounds of the record decoders (E6, shared with C16)
+	c16Run(c, "C09.4", []string{
+		"embedded/store.(*TxHeader).ReadFrom", "embedded/store.(*TxMetadata).ReadFrom", "embedded/store.(*KVMetadata).unsafeReadFrom",
+		"embedded/store.(*extraAttribute).deserialize", "embedded/store.(*truncatedUptoTxAttribute).deserialize",
+		"embedded/store.(*deletedAttribute).deserialize", "embedded/store.(*expiresAtAttribute).deserialize", "embedded/store.(*nonIndexableAttribute).deserialize",
+		"embedded/store.(*txDataReader).readHeader", "embedded/store.(*txDataReader).readEntry", "embedded/store.(*ImmuStore).valueRefFrom",
+	}, false)
 
 	// ---- C09.3 chain check and open-time checks -----------------------------------------------------------------------
 	c02TxReaderChain(c, "C09.3/txreader-chain")
